@@ -26,7 +26,8 @@ from props import rebuild_common as rc
 
 PL = 16384
 KINDS = ["v1", "v2-class", "v2-asm", "hybrid-class", "hybrid-asm", "ref1", "ref2", "ref3"]
-COMPS = [("a",), ("b",), ("d", "a"), ("d", "b"), ("d", "e", "a"), ("d", "e", "c"), ("e", "b"), ("k.d", "x y"), ("é",), ("e", "é")]
+COMPS = [("a",), ("b",), ("d", "a"), ("d", "b"), ("d", "e", "a"), ("d", "e", "c"), ("e", "b"), ("k.d", "x y"), ("é",), ("e", "é"),
+         ("wait....bin",), ("disc..2", "a"), ("d", "..x")]      # consecutive dots inside a name: ordinary names
 SUBDIRS = ["w", "sub dir", "é", "k.d", "_"]
 MAX_PAYLOAD = 100000
 MAX_SEARCH_BYTES = 260000
